@@ -22,7 +22,7 @@ def run(rep, tier):
     ]
     tabs = sc.tables(rep, tier, "c06", "abc")
     tabs = [t for t in tabs if t["nc"] >= 2 and t["nr"] - t["nc"] >= 3]
-    sc.conformance(rep, tier, tabs, "smoother", 200, "smoother", threads=(1, 3, 16) if tier == "thorough" else (1, 3))
+    sc.conformance(rep, tier, tabs, "smoother", 200, "smoother", threads=(1, 3, 16) if tier == "thorough" else (1, 3), scales=(1.0, 1e-9, 1e7))
     try:
         import realgeom
         realgeom.run(rep, tier, "smoother")
